@@ -272,6 +272,10 @@ DoEnd(ev) ==
       adoptMissing == w.inv.adopt /\ \E s \in np : MissingOf(g, w.file, s, CurRec(s).deps) # {}
       downstream(s) == s \in w.finFail \/ TransProducers(g, s) \cap w.finFail # {}
       wantedSet == {s \in StepIds(g) : StOf(s) # "Unknown"}
+      logNames == UNION {Range(w.log[i].outs) \cup Range(w.log[i].deps) : i \in DOMAIN w.log}
+      \* regeneration failed: nothing beyond the manifest's own closure is owed
+      kgScope == IF w.workNo = 1 /\ HasProducer(g, MFile) /\ w.finFail \cap W1(g) # {}
+                   THEN NonPhony(g, W1(g)) ELSE np
       allExist == \A s \in np : MissingOf(g, w.file, s, CurRec(s).deps) = {}
       v == Lbl({"C06", "C12"}, "panic", ev.panic = "")
            \cup Lbl({"C05"}, "exit-zero-after-failure", (w.finFail # {} \/ w.intr # {} \/ ev.err # "") => ~ok)
@@ -280,7 +284,8 @@ DoEnd(ev) ==
                 \cup Lbl({"C19"}, "summary", ok => /\ (ev.summary = "nowork") = (w.nOK = 0)
                                         /\ (ev.summary = "ran" => ev.n = w.nOK)
                                         /\ ev.summary # "none")
-                \cup Lbl({"C18"}, "unknown-accepted", unk # {} => ~ok)
+                \cup Lbl({"C18"}, IF unk \subseteq logNames THEN "unknown-accepted-logname" ELSE "unknown-accepted",
+                    unk # {} => ~ok)
                 \cup Lbl({"C18"}, "unknown-arg", ev.errk = "unknown_path" => ev.errarg \in unk)
                 \cup Lbl({"C18"}, "wanted-closure", (ok /\ ev.err = "") => wantedSet = Wn)
                 \cup Lbl({"C06"}, "cycle-accepted", cyc => ~ok)
@@ -288,12 +293,14 @@ DoEnd(ev) ==
                         /\ ValidCycle(g, ev.cyc)
                         /\ \A s \in w.started : ~OnOrdCycle(g, s))
                 \cup Lbl({"C06"}, "spurious-error", ev.err # "" => ev.errk \in legit)
+                \cup Lbl({"C09"}, "missing-dep-error", ev.errk = "missing_input" =>
+                        \E s \in np : ev.errarg \in MissingSources(g, w.file, s))
                 \cup Lbl({"C04"}, "pool-undeclared-ok", (badPool # {} /\ ok) => \A s \in badPool : ~DirtyNow(g, s) /\ s \notin w.started)
                 \cup Lbl({"C04"}, "pool-arg", ev.errk = "unknown_pool" => \E s \in badPool : PoolOf(g, s) = ev.errarg)
                 \cup Lbl({"C17"}, "no-reload", (w.p1ok /\ w.workNo = 1 /\ w.finFail = {} /\ w.intr = {}) => ev.err # "")
                 \cup Lbl({"C05", "C06"}, "keep-going",
                        (~ok /\ ev.err = "" /\ w.intr = {} /\ budgetLeft)
-                          => \A s \in np : downstream(s) \/ uptodate(s)))
+                          => \A s \in kgScope : downstream(s) \/ uptodate(s)))
       cov == BumpIf(BumpIf(BumpIf(BumpIf(BumpIf(BumpIf(BumpIf(BumpIf(w.cov,
                 "endok", ok), "endfail", ~ok /\ ev.err = "" /\ ~dead), "enderr", ev.err # ""),
                 "cycle", ev.errk = "cycle"), "unknownPath", ev.errk = "unknown_path"),
@@ -304,7 +311,7 @@ DoEnd(ev) ==
   IN [w EXCEPT !.viol = IF dead THEN @ \cup vdead ELSE @ \cup v,
                !.cov = IF dead THEN @ ELSE cov,
                !.inInv = FALSE,
-               !.prevOK = ~dead /\ ok /\ loaded /\ ~w.inv.adopt /\ allExist,
+               !.prevOK = ~dead /\ ok /\ loaded /\ ~w.inv.adopt /\ allExist /\ w.workNo = 1,
                !.prevTargets = w.inv.targets, !.prevFile = w.inv.file,
                !.changed = FALSE]
 
